@@ -84,6 +84,8 @@ def run(model: RepoModel, rep, tier: str):
                        "boundary together with a live frontier must not make the block walker drop the rest of the block", 2)
     rep.rule("C04.R4", "break/continue/return plumbing: loop handlers create a fresh special list, pass it to the body and resolve it; "
                        "return links to the exit and cuts the frontier; analyze() links the final frontier to the exit", 6)
+    rep.rule("C04.R6", "frontier conservation: the frontier a sub-block returns is handed on whole -- never filtered, never dropped -- and "
+                       "a list of pending statements is not mutated while it is iterated forward", 8)
     rep.rule("C04.R5", "no state leaks through the shared mutable default `special_stmts=[]` of the block walkers", 2)
 
     seven = set(gir.SEVEN)
@@ -300,6 +302,77 @@ def run(model: RepoModel, rep, tier: str):
     (rep.holds if ok else rep.violation)("C04.R4", key, FILE, an.node.lineno if an else 1,
                                          "add_edge(last_stmts_of_body_block, -1)" if ok else "fall-through at the end of the method never reaches the exit node")
 
+    # ------------------------------------------------------------------ R6
+    handler_funcs = sorted({h.name for h in reg.handlers.values()} | {dl.name})
+    for hn in handler_funcs:
+        h = cfa.methods[hn]
+        frontier_vars = set()
+        for n in walk_no_nested(h.node):
+            if isinstance(n, ast.Assign) and isinstance(n.value, ast.Call) and is_self_attr(n.value.func) \
+                    and n.value.func.attr in ("analyze_block", "analyze_init_block", dl.name):
+                for t in n.targets:
+                    if isinstance(t, ast.Name):
+                        frontier_vars.add(t.id)
+        if hn == dl.name:
+            frontier_vars |= {p for p in h.params if "stmts" in p}
+        changed = True
+        while changed:   # names derived from frontiers by + / comprehension / slicing
+            changed = False
+            for n in walk_no_nested(h.node):
+                if isinstance(n, ast.Assign) and len(n.targets) == 1 and isinstance(n.targets[0], ast.Name) and n.targets[0].id not in frontier_vars:
+                    if any(isinstance(x, ast.Name) and x.id in frontier_vars for x in ast.walk(n.value)) \
+                            and isinstance(n.value, (ast.BinOp, ast.ListComp, ast.Name, ast.Subscript)):
+                        frontier_vars.add(n.targets[0].id)
+                        changed = True
+        if not frontier_vars:
+            continue
+        probs = []
+        # (a) filtered comprehension over a frontier
+        for n in walk_no_nested(h.node):
+            if isinstance(n, (ast.ListComp, ast.GeneratorExp, ast.SetComp)):
+                for g in n.generators:
+                    if g.ifs and any(isinstance(x, ast.Name) and x.id in frontier_vars for x in ast.walk(g.iter)):
+                        probs.append((n.lineno, f"`{norm(n)}` filters a frontier: the filtered-out statements get no edge to what follows"))
+        # (b) a frontier that is never read
+        loops_in_h = [x for x in walk_no_nested(h.node) if isinstance(x, (ast.For, ast.While))]
+        for v in sorted(frontier_vars):
+            reads = [x for x in walk_no_nested(h.node) if isinstance(x, ast.Name) and x.id == v and isinstance(x.ctx, ast.Load)]
+            assigns = [x for x in walk_no_nested(h.node) if isinstance(x, ast.Assign) and any(isinstance(t, ast.Name) and t.id == v for t in x.targets)]
+            if v in h.params and not assigns:
+                if not reads:
+                    probs.append((h.node.lineno, f"the incoming frontier `{v}` is never linked to anything"))
+                continue
+            if not assigns:
+                continue
+            last = max(assigns, key=lambda a: a.end_lineno)
+            later = [r for r in reads if r.lineno > last.end_lineno]
+            in_same_loop = any(any(y is last for y in ast.walk(lp)) and any(any(y is r for y in ast.walk(lp)) for r in reads) for lp in loops_in_h)
+            if not later and not in_same_loop:
+                probs.append((last.lineno, f"the frontier `{v}` (last assigned at line {last.lineno}) is not used afterwards: control leaving that "
+                                           f"sub-block goes nowhere"))
+        # (c) forward iteration over a list the loop body mutates
+        for n in walk_no_nested(h.node):
+            if isinstance(n, ast.For) and isinstance(n.iter, ast.Name):
+                L = n.iter.id
+                for x in ast.walk(n):
+                    if isinstance(x, ast.Call) and isinstance(x.func, ast.Attribute) and isinstance(x.func.value, ast.Name) and x.func.value.id == L \
+                            and x.func.attr in ("remove", "pop", "insert", "clear"):
+                        probs.append((x.lineno, f"`{norm(x)}` mutates `{L}` while `for {norm(n.target)} in {L}` iterates it forward: the element "
+                                                f"after each removal is skipped (every second break/continue stays unresolved)"))
+                    if isinstance(x, ast.Delete) and any(isinstance(t, ast.Subscript) and isinstance(t.value, ast.Name) and t.value.id == L for t in x.targets):
+                        probs.append((x.lineno, f"`{norm(x)}` deletes from `{L}` while it is iterated forward"))
+            if isinstance(n, ast.For) and isinstance(n.iter, ast.Call) and call_name(n.iter) == "range" and n.iter.args \
+                    and isinstance(n.iter.args[-1], ast.Call) and call_name(n.iter.args[-1]) == "len":
+                L = n.iter.args[-1].args[0].id if n.iter.args[-1].args and isinstance(n.iter.args[-1].args[0], ast.Name) else None
+                for x in ast.walk(n):
+                    if L and isinstance(x, ast.Delete) and any(isinstance(t, ast.Subscript) and isinstance(t.value, ast.Name) and t.value.id == L for t in x.targets):
+                        probs.append((x.lineno, f"`{norm(x)}` inside a forward `range(len({L}))` loop skips the element after each deletion"))
+        key = f"{FILE}::{h.qualname}::frontiers handed on whole"
+        if probs:
+            rep.violation("C04.R6", key, FILE, probs[0][0], f"{h.qualname}: " + "; ".join(p for _, p in probs))
+        else:
+            rep.holds("C04.R6", key, FILE, h.node.lineno, f"{len(frontier_vars)} frontier variable(s); no filter, no drop, no mutation under forward iteration")
+
     # ------------------------------------------------------------------ R5
     # The walkers take ``special_stmts=[]``.  analyze() relies on that default, so stray break/continue statements
     # accumulate in a list shared by every method analysed in the process.  That is inert as long as the walkers hand the
@@ -354,6 +427,19 @@ def _is_attr(name):
 from .c02 import _rename_attr, _rename_op  # noqa: E402  (shared AST-located frontend mutators)
 
 MUTANTS = [
+    ("finally-parents-filtered", FILE, _mut_expr("ControlFlowAnalysis", "analyze_try_stmt",
+                                                 lambda e: isinstance(e, ast.ListComp) and "CATCH_FINALLY" in norm(e),
+                                                 "[CFGNode(s, CONTROL_FLOW_KIND.CATCH_FINALLY) for s in last_stmts_of_catch_body + last_stmts_of_else if not isinstance(s, CFGNode)]"),
+     "analyze_try_stmt::frontiers"),
+    ("specials-removed-while-iterating", FILE,
+     lambda src: __import__("sa.mutate", fromlist=["x"]).replace_stmt_where(
+         src, "ControlFlowAnalysis", "deal_with_last_stmts_of_loop_body",
+         lambda st: isinstance(st, ast.For) and "special_stmts" in norm(st.iter),
+         "for node in special_stmts:\n    if node.operation == \"break_stmt\":\n        result.append(node)\n        special_stmts.remove(node)\n    elif node.operation == \"continue_stmt\":\n        self.link_parent_stmts_to_current_stmt([CFGNode(node, CONTROL_FLOW_KIND.CONTINUE)], current_stmt)\n        special_stmts.remove(node)"),
+     "deal_with_last_stmts_of_loop_body::frontiers"),
+    ("if-else-frontier-dropped", FILE, _mut_expr("ControlFlowAnalysis", "analyze_if_stmt",
+                                                 lambda e: isinstance(e, ast.BinOp) and "last_stmts_of_else_body" in norm(e), "last_stmts_of_then_body"),
+     "analyze_if_stmt::frontiers"),
     ("if-handler-ignores-else", FILE, _mut_expr("ControlFlowAnalysis", "analyze_if_stmt", _is_attr("else_body"), "current_stmt.elsebody"), "if_stmt::else_body"),
     ("while-handler-reads-other-body", FILE, _mut_expr("ControlFlowAnalysis", "analyze_while_stmt", _is_attr("body"), "current_stmt.loop_body"), "while_stmt::body"),
     ("for-boundary-loses-body", FILE, _mut_expr("ControlFlowAnalysis", "analyze_for_stmt",
